@@ -364,6 +364,47 @@ func Check(run *report.Run, p Prop, nCases int) error {
 	return nil
 }
 
+// CheckPurity (C19): every request of a history through one filter value is also sent alone to a
+// fresh container with a fresh filter value of the same configuration; the two observations (status,
+// every header the filter added, what ran behind it) must be the same — the filter remembers nothing.
+func CheckPurity(run *report.Run, nCases int) error {
+	base := rng.New(run.Seed*7919 + 23)
+	bad, skipped := 0, 0
+	for ci, done := 0, 0; done < nCases; ci++ {
+		c := GenCase(base.Fork(uint64(ci)))
+		obs, _, err := Execute(&c)
+		if err != nil {
+			if skipped++; skipped > 50*nCases+100 {
+				return fmt.Errorf("too many unbuildable tables")
+			}
+			continue
+		}
+		done++
+		for i := 1; i < len(c.Reqs); i++ {
+			one := Case{Table: c.Table, F: c.F, Reqs: c.Reqs[i : i+1]}
+			o1, _, err := Execute(&one)
+			if err != nil {
+				return err
+			}
+			run.Evaluations++
+			run.TracesValidated++
+			run.Count("cors-filter:fresh-replays")
+			if len(obs[i].Extra) > 0 {
+				run.Distinct["cors|"+c.F.Sx().String()+"|"+c.Table.Sx().String()+"|"+c.Reqs[i].ReqSx(Obs{}).String()] = true
+			}
+			a, b := fmt.Sprintf("%+v", obs[i]), fmt.Sprintf("%+v", o1[0])
+			if a != b && bad < 3 {
+				bad++
+				run.AddViolation(report.Violation{Kind: "counterexample",
+					What:  fmt.Sprintf("C19: request %d of a history through one CORS filter value is answered differently from the same request sent first to a fresh container and filter", i),
+					Case:  []string{c.Line(0, obs)},
+					Human: map[string]interface{}{"history": c.Human(obs), "request": i}, Real: a, Model: b})
+			}
+		}
+	}
+	return nil
+}
+
 // probeFresh asks a twin whether (method, URL) is routed: 404/405 = not.
 func (p *Pair) probeFresh(c *Case, r Req, method string) int { return p.Probe(r, method) }
 
